@@ -408,6 +408,12 @@ pub fn systime(secs: u64, nanos: u32) -> SystemTime {
 }
 
 fn exec_inner(root: &VfsPath, op: &Op) -> Res {
+    exec_inner_via(&|p: &str| at(root, p), op)
+}
+
+fn exec_inner_via(at_fn: &dyn Fn(&str) -> VfsPath, op: &Op) -> Res {
+    let root = &();
+    let at = |_: &(), p: &str| at_fn(p);
     match op {
         Op::CreateDir(p) => verr(at(root, p).create_dir()).map(|_| Out::Unit),
         Op::CreateFile(p, script) => {
@@ -509,6 +515,14 @@ fn exec_inner(root: &VfsPath, op: &Op) -> Res {
             })
             .map(|_| Out::Unit)
         }
+    }
+}
+
+/// Like `exec`, but every path of the operation is obtained through `at_fn` (e.g. via hostile join expressions).
+pub fn exec_via(at_fn: &dyn Fn(&str) -> VfsPath, op: &Op) -> Res {
+    match guard(|| exec_inner_via(at_fn, op)) {
+        Ok(r) => r,
+        Err(p) => Err(ErrInfo::from_panic(p)),
     }
 }
 
